@@ -265,9 +265,150 @@ func c01DiagImpliesError(c *Ctx, entry *ssa.Function, ro *ParserRoles) {
 			return isFA && fieldName(fa) == "parseDiagnostics"
 		}
 		skip := pathExistsIn(r, nil, isReturn, isAppend)
+		if skip && c.sentinelSuppression(sink, emptyList, isAppend) {
+			// duplicates are recognised by a "position of the last diagnostic" field that starts out negative and
+			// follows the list (see sentinelSuppression): with the list empty it equals no position
+			skip = false
+		}
 		c.R.Check(rule, "first-diagnostic-recorded", c.P.Pos(sink.Pos()), !skip, "with no diagnostic recorded yet there is a path through the recorder that does not append: the first error of a parse can be dropped (e.g. suppressed by comparing with a zero-valued 'last position')")
 	}
 	c.R.Floor(rule, 4)
+}
+
+// sentinelSuppression: the recorder drops a diagnostic only when its start equals a field F of the parser, and F keeps
+// to the invariant "F is its negative initial value, or the start of a diagnostic that is in the list":
+//   - F is initialised with a negative constant where the parser is built;
+//   - the recorder stores its start parameter into F only after it has appended;
+//   - every other store to F puts back a value read from F earlier in the same function, and every store that
+//     shortens the diagnostic list has such a restore in its block, the saved value read where the saved length is.
+//
+// Offsets into the text are not negative, so with an empty list (F negative) nothing is dropped.
+func (c *Ctx) sentinelSuppression(sink *ssa.Function, emptyList Pin, isAppend func(ssa.Instruction) bool) bool {
+	if len(sink.Params) < 2 {
+		return false
+	}
+	parserT := namedOf(sink.Params[0].Type())
+	if parserT == nil {
+		return false
+	}
+	isF := func(v ssa.Value, name string) (*ssa.FieldAddr, bool) {
+		fa, ok := v.(*ssa.FieldAddr)
+		if !ok || namedOf(fa.X.Type()) != parserT || (name != "" && fieldName(fa) != name) {
+			return nil, false
+		}
+		return fa, true
+	}
+	// the comparison start == p.F
+	var cmp *ssa.BinOp
+	field := ""
+	var start *ssa.Parameter
+	n := 0
+	instrs(sink, func(b *ssa.BasicBlock, i int, in ssa.Instruction) {
+		bo, ok := in.(*ssa.BinOp)
+		if !ok || (bo.Op != token.EQL && bo.Op != token.NEQ) {
+			return
+		}
+		for _, pr := range [][2]ssa.Value{{bo.X, bo.Y}, {bo.Y, bo.X}} {
+			p, isP := pr[0].(*ssa.Parameter)
+			u, isU := pr[1].(*ssa.UnOp)
+			if !isP || !isU || u.Op != token.MUL || !isIntType(p.Type()) {
+				continue
+			}
+			if fa, ok := isF(u.X, ""); ok && fa.X == ssa.Value(sink.Params[0]) {
+				cmp, field, start = bo, fieldName(fa), p
+				n++
+			}
+		}
+	})
+	if n != 1 || field == "parseDiagnostics" {
+		return false
+	}
+	// without that suppression every path appends
+	differ := cmp.Op == token.NEQ
+	r := c.foldWith(sink, 0, emptyList, pinValue(cmp, constant.MakeBool(differ)))
+	if pathExistsIn(r, nil, isReturn, isAppend) {
+		return false
+	}
+	ok := true
+	inits := 0
+	for _, f := range c.P.ModFuncs {
+		instrs(f, func(b *ssa.BasicBlock, i int, in ssa.Instruction) {
+			st, isSt := in.(*ssa.Store)
+			if !isSt || !ok {
+				return
+			}
+			if fa, isFld := isF(st.Addr, field); isFld {
+				switch {
+				case f == sink:
+					// start, after the append
+					after := false
+					instrs(sink, func(_ *ssa.BasicBlock, _ int, x ssa.Instruction) {
+						if isAppend(x) && instrDominates(x, in) {
+							after = true
+						}
+					})
+					if st.Val != ssa.Value(start) || !after {
+						ok = false
+					}
+				default:
+					if k, isK := constIntArg(st.Val); isK {
+						if _, fresh := fa.X.(*ssa.Alloc); fresh && k < 0 {
+							inits++
+							return
+						}
+						ok = false
+						return
+					}
+					// a restore of a value read from the field in this function
+					u, isU := st.Val.(*ssa.UnOp)
+					if !isU || u.Op != token.MUL {
+						ok = false
+						return
+					}
+					if f2, isFld2 := isF(u.X, field); !isFld2 || f2.X != fa.X {
+						ok = false
+					}
+				}
+				return
+			}
+			// the list shortened (or replaced) outside the recorder
+			if fa, isFld := isF(st.Addr, "parseDiagnostics"); isFld && f != sink {
+				if _, fresh := fa.X.(*ssa.Alloc); fresh {
+					return
+				}
+				sl, isSl := st.Val.(*ssa.Slice)
+				if !isSl || sl.High == nil {
+					ok = false
+					return
+				}
+				// the saved length: len(p.parseDiagnostics) read in some block B; F must be read in B too, and put back here
+				lc, isLen := sl.High.(*ssa.Call)
+				if !isLen || !isBuiltinCall(lc, "len") {
+					ok = false
+					return
+				}
+				restored := false
+				for _, x := range b.Instrs {
+					s2, isS2 := x.(*ssa.Store)
+					if !isS2 {
+						continue
+					}
+					if _, isFld2 := isF(s2.Addr, field); !isFld2 {
+						continue
+					}
+					if u, isU := s2.Val.(*ssa.UnOp); isU && u.Op == token.MUL && u.Block() == lc.Block() {
+						if _, isFld3 := isF(u.X, field); isFld3 {
+							restored = true
+						}
+					}
+				}
+				if !restored {
+					ok = false
+				}
+			}
+		})
+	}
+	return ok && inits >= 1
 }
 
 // c01EOF: after the top-level expression, every path to the worker's return tests token == EOF and rejects otherwise.
